@@ -81,3 +81,40 @@ func (verifC19SendConn) capabilities() connCapabilities { return connCapabilitie
 func VerifC19Conn() *Conn {
 	return &Conn{conn: verifC19SendConn{}, cryptoStreamHandler: verifC19Crypto{}, config: &Config{}}
 }
+
+// VerifC19Pump is a stream sender that stands for a connection that always has room: whenever the
+// stream announces data (SendStream.Write does so once per call, before it waits) it pops the
+// STREAM frames at once, in the caller's goroutine, so that a Write larger than one packet buffer
+// returns instead of waiting for a packer that does not exist here.
+type VerifC19Pump struct {
+	verifC19Sender
+	data []byte
+}
+
+func (p *VerifC19Pump) onHasStreamData(_ protocol.StreamID, s *SendStream) {
+	for i := 0; i < 1<<16; i++ {
+		f, _, _ := s.popStreamFrame(1200, protocol.Version1)
+		if f.Frame == nil {
+			return
+		}
+		p.data = append(p.data, f.Frame.Data...)
+	}
+}
+
+// Bytes returns what the stream's owner has written so far (popped frames only; VerifC19Drain
+// returns the rest).
+func (p *VerifC19Pump) Bytes() []byte { return p.data }
+
+// VerifC19NewPumpedStream is VerifC19NewStream with a VerifC19Pump as the stream's sender.
+func VerifC19NewPumpedStream(data []byte) (*Stream, *VerifC19Pump) {
+	rtt := utils.NewRTTStats()
+	cfc := flowcontrol.NewConnectionFlowController(1<<24, 1<<24, func(protocol.ByteCount) bool { return true }, rtt, utils.DefaultLogger)
+	cfc.UpdateSendWindow(1 << 24)
+	sfc := flowcontrol.NewStreamFlowController(0, cfc, 1<<22, 1<<22, 1<<22, rtt, utils.DefaultLogger)
+	p := &VerifC19Pump{}
+	s := newStream(context.Background(), 0, p, sfc, false)
+	if err := s.handleStreamFrame(&wire.StreamFrame{StreamID: 0, Data: data}, verifC19Now); err != nil {
+		panic(err)
+	}
+	return s, p
+}
